@@ -19,6 +19,7 @@ import itertools
 import logging
 import os
 import re
+import sys
 import threading
 import time
 from common import poke  # noqa: E402
@@ -373,6 +374,238 @@ class Hub:
             h.handle_message(r[1])
 
 
+# ----------------------------------------------------------------------------------------------
+# B'. same-named contexts constructed under an IDENTICAL ambient state
+# ----------------------------------------------------------------------------------------------
+AMBIENT_SOURCES = {
+    "random": "global PRNG: random.seed(k) (or random.setstate(<one saved state>)) immediately before every "
+              "constructor call, numpy.random.seed too when numpy is loaded; the previous state is restored afterwards",
+    "time": "time.time/time_ns/monotonic/monotonic_ns/perf_counter/perf_counter_ns/process_time/process_time_ns/"
+            "thread_time/thread_time_ns return constants during the constructor; datetime.datetime (module attribute, "
+            "and the name in qmi.core.context if imported there) is a subclass with constant now()/utcnow()/today()",
+    "pid": "os.getpid() / os.getppid() return constants during the constructor",
+    "thread": "every constructor runs in a fresh thread with the same name (CPython re-uses the thread ident; whether "
+              "it did is recorded); threading.get_native_id() returns a constant during the constructor",
+    "id": "sequential lifetimes: the previous instance is dropped and collected before the next constructor runs, so "
+          "that the allocator hands out the same address / id() (whether it did is recorded)",
+    "order": "identical construction sequence for every instance (same harness calls in the same order between the "
+             "equalisation and the constructor); PYTHONHASHSEED=0 (set by ./check) makes hash() of equal strings equal",
+}
+NOT_EQUALISED = ("os.urandom / getrandom(), secrets, random.SystemRandom, uuid.uuid4: the operating system's entropy "
+                 "source is the legitimate origin of the nonce and is never patched")
+
+
+class _Ambient:
+    """Context manager: equalise the chosen ambient sources for the duration of one constructor call."""
+
+    def __init__(self, sources, k, full):
+        self.sources, self.k, self.full = sources, k, full
+        self.undo = []
+
+    def _patch(self, mod, name, value):
+        if hasattr(mod, name):
+            old = getattr(mod, name)
+            setattr(mod, name, value)
+            self.undo.append((mod, name, old))
+
+    def __enter__(self):
+        import random as _random
+        import time as _time
+        import datetime as _datetime
+        import threading as _threading
+        src = self.sources
+        if "random" in src:
+            st = _random.getstate()
+            self.undo.append(("random-state", st, None))
+            if self.k == "setstate":
+                _random.setstate(_SAVED_RANDOM_STATE)
+            else:
+                _random.seed(self.k)
+            np = sys.modules.get("numpy")
+            if np is not None:
+                try:
+                    nst = np.random.get_state()
+                    self.undo.append(("numpy-state", nst, np))
+                    np.random.seed(0 if self.k == "setstate" else int(self.k) % (2 ** 32))
+                except Exception:
+                    pass
+        if "time" in src:
+            for nm, v in (("time", 1700000000.25), ("time_ns", 1700000000250000000), ("monotonic", 12345.5),
+                          ("monotonic_ns", 12345500000000), ("perf_counter", 777.125), ("perf_counter_ns", 777125000000),
+                          ("process_time", 1.5), ("process_time_ns", 1500000000), ("thread_time", 0.5),
+                          ("thread_time_ns", 500000000)):
+                self._patch(_time, nm, (lambda v=v: v))
+            real_dt = _datetime.datetime
+
+            class FixedDatetime(real_dt):
+                @classmethod
+                def now(cls, tz=None):
+                    return real_dt.fromtimestamp(1700000000.25, tz)
+
+                @classmethod
+                def utcnow(cls):
+                    return real_dt(2023, 11, 14, 22, 13, 20, 250000)
+
+                @classmethod
+                def today(cls):
+                    return real_dt.fromtimestamp(1700000000.25)
+            self._patch(_datetime, "datetime", FixedDatetime)
+            ctxmod = sys.modules.get("qmi.core.context")
+            if ctxmod is not None and getattr(ctxmod, "datetime", None) is real_dt:
+                self._patch(ctxmod, "datetime", FixedDatetime)
+        if "pid" in src:
+            self._patch(os, "getpid", lambda: 4242)
+            self._patch(os, "getppid", lambda: 4241)
+        if "thread" in src and not self.full:
+            self._patch(_threading, "get_native_id", lambda: 424242)
+        return self
+
+    def __exit__(self, *exc):
+        import random as _random
+        for item in reversed(self.undo):
+            if item[0] == "random-state":
+                _random.setstate(item[1])
+            elif item[0] == "numpy-state":
+                item[2].random.set_state(item[1])
+            else:
+                setattr(item[0], item[1], item[2])
+        self.undo = []
+        return False
+
+
+import random as _random_mod   # noqa: E402
+_SAVED_RANDOM_STATE = _random_mod.Random(987654321).getstate()
+
+
+def construct_equalised(name, sources, k, full=False, keep=False):
+    """One real QMI_Context(name) constructed with the chosen ambient sources equalised.
+    full=True: the complete constructor (with its internal '$context' worker, stopped again at once);
+    otherwise the constructor without that worker (see new_real_context).  -> (context, info)"""
+    from qmi.core.context import QMI_Context
+    box = {}
+
+    def make():
+        try:
+            with _Ambient(sources, k, full):
+                box["ctx"] = QMI_Context(name) if full else new_real_context(name)
+            box["ident"] = threading.get_ident()
+        except BaseException as e:      # reported by the caller as a broken tie
+            box["exc"] = e
+    if "thread" in sources:
+        t = threading.Thread(target=make, name="ctx-maker")
+        t.start()
+        t.join(30)
+    else:
+        make()
+    if "exc" in box:
+        raise box["exc"]
+    c = box["ctx"]
+    if full and not keep:
+        try:
+            m = c._rpc_object_map.get("$context")
+            if m is not None:
+                m.stop()
+        except Exception:
+            pass
+    return c, {"ident": box.get("ident"), "id": id(c)}
+
+
+def run_equalised(n, sources, k, full=False, name="client"):
+    """n same-named contexts, each constructed under the SAME ambient state, each then locks the one object
+    through its own proxy, calls a method, and draws two more tokens.  Same observation format as run_hist;
+    proxy i-1 lives in instance i (instance 0 is the object's own context and has no proxy here)."""
+    import gc
+    rpc, _ = _imports()
+    from qmi.core.exceptions import QMI_RuntimeException
+    hub = Hub([])
+    w = hub.w
+    insts = ["srv"] + [name] * n
+    proxies = list(range(1, n + 1))
+    px, obs, ops, infos = [], [], [], []
+    seq = "id" in sources
+
+    def observe(out):
+        req = hub.last_lock_req
+        sent = None if (req is None or req.lock_token is None) else (req.lock_token[0], req.lock_token[1])
+        obs.append({"out": out, "sent": sent, "sent_action": None if req is None else req.lock_action.name,
+                    "owner": w.owner(),
+                    "ptoks": [None if p._lock_token is None else tuple(p._lock_token) for p in px] + [None] * (n - len(px)),
+                    "nbtoks": [None if p.rpc_nonblocking._lock_token is None else tuple(p.rpc_nonblocking._lock_token)
+                               for p in px] + [None] * (n - len(px)),
+                    "ran": len(w.obj.log) - observe.log_before, "gen": []})
+    for i in range(1, n + 1):
+        real, info = construct_equalised(name, sources, k, full)
+        infos.append(info)
+        ctx = LoopCtx(real, hub, i)
+        p = rpc.QMI_RpcProxy(ctx, w.obj.rpc_object_descriptor)
+        px.append(p)
+        # lock
+        hub.last_lock_req = None
+        observe.log_before = len(w.obj.log)
+        r = p.lock()
+        ops.append(("lock", i - 1, None))
+        observe(("bool", r) if isinstance(r, bool) else ("weird", repr(r)))
+        # method call
+        hub.last_lock_req = None
+        observe.log_before = len(w.obj.log)
+        try:
+            r = p.bump(100 + i)
+            out = ("exec", True) if r == 100 + i else ("weird", repr(r))
+        except QMI_RuntimeException as e:
+            out = ("exec", False) if "locked" in str(e) else ("weird", repr(e))
+        ops.append(("call", i - 1, 100 + i))
+        observe(out)
+        # two more tokens of this instance (counter values 2 and 3), for the all-pairs comparison
+        ctx.make_unique_token()
+        ctx.make_unique_token()
+        if seq:
+            ctx.real = None
+            del real
+            gc.collect()
+    res = {"obs": obs, "died": None, "log": list(w.obj.log), "generated": list(hub.generated), "owner": w.owner(),
+           "crashes": [], "rejected": []}
+    achieved = {"thread_idents_equal": len({x["ident"] for x in infos}) == 1 if "thread" in sources else None,
+                "ids_equal": len({x["id"] for x in infos}) == 1 if seq else None}
+    return insts, proxies, ops, res, achieved
+
+
+def equalised_variants(tier):
+    seeds = [0, 1, 20240611, 2 ** 32 - 1, "setstate"]
+    out = []
+    for n in (2, 3):
+        for k in seeds:
+            out.append((n, ("random",), k, False))
+            out.append((n, ("random", "time", "pid"), k, False))
+            out.append((n, ("random", "time", "pid", "thread", "id"), k, False))
+        for src in (("time",), ("pid",), ("thread",), ("id",), ("time", "pid", "thread"), ()):
+            out.append((n, src, 0, False))
+        out.append((n, ("random", "time", "pid"), 20240611, True))      # the complete constructor
+        out.append((n, ("random",), 7, True))
+    if tier != "quick":
+        for k in range(2, 40):
+            out.append((2, ("random", "time", "pid", "thread"), k, False))
+    out.sort(key=lambda v: (len(v[1]), v[3], v[0]))      # smaller source sets first (stable)
+    return out
+
+
+def oracle_equalised(insts, proxies, ops, res):
+    """mutual exclusion for the same-named contexts + pairwise distinct automatic tokens (all counter values)"""
+    for w in oracle_hist(insts, proxies, ops, res):
+        yield w
+    for w in oracle_tokens(insts, res["generated"]):
+        yield w
+    first = res["obs"][0]
+    owner1 = first["owner"]
+    for j in range(1, len(proxies)):
+        lk, cl = res["obs"][2 * j], res["obs"][2 * j + 1]
+        if lk["out"] != ("bool", False) or cl["out"] != ("exec", False) or cl["ran"] != 0 or lk["owner"] != owner1:
+            yield ("mutex:same-named-contexts-both-hold-the-lock",
+                   "context #%d named %r: lock() -> %r with token %r while context #1 owns the object with %r; its "
+                   "method call -> %r (body ran %d time(s))" % (j + 1, insts[1], lk["out"][1], lk["sent"], owner1,
+                                                                 cl["out"], cl["ran"]))
+            return
+
+
 def run_hist(insts, proxies, ops):
     """insts: context names (index 0 is the owning context 'srv'); proxies: instance index per proxy;
     ops: list of tuples.  Returns dict with per-op observations (truncated at a worker death)."""
@@ -636,7 +869,10 @@ def coq_prog(insts, proxies, ops, res):
     """layer 2: client program with automatic tokens; None if the history has raw requests"""
     if any(o[0] in ("rawlock", "rawcall") for o in ops[:len(res["obs"])]):
         return None
-    cfg = clist(["mkCtx %s %s" % (cN(proxies[p] + 1), cN(_id("name", insts[proxies[p]]))) for p in range(len(proxies))])
+    # instance = (iid, nonce, name); the model is given DISTINCT nonces for distinct instances — the hypothesis
+    # [nonces_ok] of the distinctness theorems — and must then reproduce what the real contexts did
+    cfg = clist(["mkCtx %s %s %s" % (cN(proxies[p] + 1), cN(proxies[p] + 1), cN(_id("name", insts[proxies[p]])))
+                 for p in range(len(proxies))])
     terms = []
     for o in ops[:len(res["obs"])]:
         k = o[0]
@@ -659,7 +895,7 @@ def coq_tok(insts, generated):
     obs = []
     for _, t in generated:
         obs.append(ids.setdefault(t, len(ids) + 1))
-    calls = clist(["mkCtx %s %s" % (cN(i + 1), cN(_id("name", insts[i]))) for i, _ in generated])
+    calls = clist(["mkCtx %s %s %s" % (cN(i + 1), cN(i + 1), cN(_id("name", insts[i]))) for i, _ in generated])
     return "CTok %s %s" % (calls, "[" + ";".join(str(x) for x in obs) + "]%N")
 
 
@@ -725,14 +961,33 @@ def eval_hist(insts, proxies, ops, kind="hist", **kw):
     ops2, res2 = drop_skipped(ops, raw)
     if kind != "hist":
         fill_sent_tcp(insts, proxies, ops2, res2)
-    whys = list(oracle_hist(insts, proxies, ops2, res2))
+    whys = list(oracle_hist(insts, proxies, ops2, res2)) + list(oracle_holders(insts, proxies, ops2, res2, raw["generated"]))
     crashes = [crash_finding(o, ow, exc, k) for (k, exc, ow, o) in raw.get("crashes", [])]
     collide = list(oracle_tokens(insts, raw["generated"]))
     return {"ops": ops2, "res": res2, "raw": raw, "whys": whys, "crashes": crashes, "collide": collide}
 
 
-def report_hist(ck, kind, insts, proxies, ops, ev):
+def oracle_holders(insts, proxies, ops, res, generated):
+    """at no time do two different proxies remember the same AUTOMATIC token (one generated by make_unique_token)"""
+    auto = {t for _, t in generated}
+    for k, ob in enumerate(res["obs"]):
+        pt = ob["ptoks"]
+        for p in range(len(pt)):
+            for q in range(p + 1, len(pt)):
+                if pt[p] is not None and pt[p] == pt[q] and pt[p] in auto:
+                    rel = ("the same context instance" if proxies[p] == proxies[q] else
+                           "two context instances with the same name" if insts[proxies[p]] == insts[proxies[q]] else
+                           "differently named contexts")
+                    yield ("mutex:two-proxies-hold-the-same-automatic-token",
+                           "after op %d %r proxies %d and %d (in %s) both remember the automatic token %r; the object is "
+                           "owned by %r" % (k, ops[k], p, q, rel, pt[p], ob["owner"]))
+                    return
+
+
+def report_hist(ck, kind, insts, proxies, ops, ev, equalise=None):
     rep = {"kind": kind, "insts": insts, "proxies": proxies, "ops": ops}
+    if equalise is not None:
+        rep["equalise"] = [list(equalise[0]), equalise[1]]
     for key, text in ev["whys"] + ev["crashes"] + ev["collide"]:
         nkey = re.sub(r"-?\d+", "N", key)
         r2 = rep
@@ -743,7 +998,12 @@ def report_hist(ck, kind, insts, proxies, ops, ev):
                 t2 = [t for k, t in ev2["whys"] + ev2["crashes"] + ev2["collide"] if k == key]
                 if t2:
                     r2, text = dict(rep, ops=sops, unshrunk_ops=ops), t2[0]
-        ck.report(key, "C04 fails on the implementation%s: %s" % (" (real contexts over TCP)" if kind == "tcp" else "", text),
+        where = " (real contexts over TCP)" if kind == "tcp" else ""
+        if equalise is not None:
+            where = " (real contexts over TCP; the client contexts constructed with identical %s, random %r)" % (
+                "+".join(equalise[0]), equalise[1])
+            key = "%s:equalised[%s]" % (key, "+".join(equalise[0]))
+        ck.report(key, "C04 fails on the implementation%s: %s" % (where, text),
                   dict(r2, impl_last=[ob["out"] for ob in ev["res"]["obs"][-3:]], died=ev["res"]["died"]))
 
 
@@ -783,7 +1043,7 @@ def shrink_hist(insts, proxies, ops, key):
 # ----------------------------------------------------------------------------------------------
 # C. real contexts over loop-back TCP
 # ----------------------------------------------------------------------------------------------
-def run_tcp(insts, proxies, ops, skip_force_on_free=False, op_timeout=4.0):
+def run_tcp(insts, proxies, ops, skip_force_on_free=False, op_timeout=4.0, equalise=None):
     """Same observations as run_hist, with real started contexts; insts[0] is the server.
     A stuck operation is reported as died=(k, 'HANG')."""
     rpc, _ = _imports()
@@ -807,7 +1067,10 @@ def run_tcp(insts, proxies, ops, skip_force_on_free=False, op_timeout=4.0):
         th = srv._rpc_object_map["obj"]._rpc_thread
         obj = th._rpc_object
         for nm in insts[1:]:
-            c = QMI_Context(nm)
+            if equalise is not None:     # (sources, k): client contexts constructed under an identical ambient state
+                c = construct_equalised(nm, equalise[0], equalise[1], full=True, keep=True)[0]
+            else:
+                c = QMI_Context(nm)
             c.start()
             started.append(c)
             c.connect_to_peer(insts[0], "127.0.0.1:%d" % port)
@@ -1042,6 +1305,46 @@ def run(ck):
         metas.append((rep, why))
     ck.sample(metas[-4][0], 4)
 
+    # ---- B'. same-named contexts constructed under an identical ambient state -------------------------
+    # The distinctness theorems assume [nonces_ok]: distinct same-named instances carry distinct nonces.  The
+    # nonce is drawn by the real constructor; here every ambient source EXCEPT the operating system's entropy
+    # is made identical for the instances compared, then each locks through its own proxy.
+    t_e = time.time()
+    achieved_all = {"thread_idents_equal": 0, "ids_equal": 0, "scenarios": 0}
+    failed_sources = []
+    for n, sources, k, full in equalised_variants(ck.tier):
+        insts, proxies, ops, res, achieved = run_equalised(n, sources, k, full)
+        label = "+".join(sources) if sources else "nothing"
+        ck.note_case(("equalised", n, sources, str(k), full), True)
+        ck.count("equalised:%d-contexts" % n)
+        ck.count("equalised:sources:%s%s" % (label, ":full-constructor" if full else ""))
+        achieved_all["scenarios"] += 1
+        for a in ("thread_idents_equal", "ids_equal"):
+            achieved_all[a] += 1 if achieved[a] else 0
+        whys = list(oracle_equalised(insts, proxies, ops, res))
+        rep = {"kind": "equalised", "n": n, "sources": list(sources), "k": k, "full": full, "achieved": achieved}
+        if whys and any(set(f) <= set(sources) for f in failed_sources):
+            ck.count("equalised:fails-like-a-smaller-source-set-already-reported")
+            whys_report = []
+        else:
+            whys_report = whys
+            if whys:
+                failed_sources.append(sources)
+        for key, text in whys_report:
+            ck.report("%s:equalised[%s]" % (key, label),
+                      "C04 fails on the implementation: %d contexts named %r, each constructed with identical %s%s: %s"
+                      % (n, insts[1], label, "" if "random" not in sources else " (random %s)" %
+                         ("setstate" if k == "setstate" else "seed %r" % (k,)), text),
+                      dict(rep, generated=res["generated"], impl=[ob["out"] for ob in res["obs"]]))
+        ev = {"ops": ops, "res": res, "raw": res, "whys": whys[:1], "crashes": [], "collide": [w for w in whys if w[0].startswith("tokens:")] or whys[:1]}
+        add_hist_terms(terms, metas, "equalised", insts, proxies, ev, with_pattern=True)
+    ck.coverage["equalised_ambient"] = {
+        "equalised_sources": AMBIENT_SOURCES, "never_equalised": NOT_EQUALISED,
+        "scenarios": achieved_all["scenarios"],
+        "scenarios_where_thread_idents_were_equal": achieved_all["thread_idents_equal"],
+        "scenarios_where_id()_was_equal": achieved_all["ids_equal"],
+        "seconds": round(time.time() - t_e, 2)}
+
     # ---- B. proxy histories over the loop-back context -------------------------------------------
     nhist = 2000 if ck.tier == "quick" else 20000
     scripted = [
@@ -1102,20 +1405,29 @@ def run(ck):
     if force_free_crashes:
         # confirm end to end, once, what the direct drive showed: the caller never returns
         tcp.append((["srv", "cl"], [1, 0], [("islocked", 0), ("force", 0), ("islocked", 1)], "confirm-hang"))
+    # real same-named client contexts constructed (complete constructor) under an identical ambient state
+    eq_ops2 = [("lock", 0, None), ("call", 0, 1), ("lock", 1, None), ("call", 1, 2), ("islocked", 1),
+               ("unlock", 1, None), ("call", 0, 3), ("unlock", 0, None), ("lock", 1, None), ("lock", 0, None)]
+    eq_ops3 = eq_ops2[:4] + [("lock", 2, None), ("call", 2, 5), ("unlock", 2, None), ("unlock", 0, None)]
+    for k in (20240611, 0, "setstate"):
+        tcp.append((["srv", "client", "client"], [1, 2], eq_ops2, "equalised", (("random", "time", "pid"), k)))
+    tcp.append((["srv", "client", "client", "client"], [1, 2, 3], eq_ops3, "equalised", (("random", "time", "pid"), 1)))
     for _ in range(ntcp):
         names, proxies = gen_config(rng)
         tcp.append((names, proxies, gen_ops(rng, names, proxies, rng.randint(1, 25), raw=False), "random"))
     t_tcp = time.time()
-    for names, proxies, ops, kind in tcp:
+    for item in tcp:
+        names, proxies, ops, kind = item[:4]
+        equalise = item[4] if len(item) > 4 else None
         ev = eval_hist(names, proxies, ops, "tcp",
                        skip_force_on_free=(force_free_crashes and kind != "confirm-hang"),
-                       op_timeout=1.5 if kind == "confirm-hang" else 30.0)
+                       op_timeout=1.5 if kind == "confirm-hang" else 30.0, equalise=equalise)
         ops2, res2 = ev["ops"], ev["res"]
         ck.count("tcp:skipped-force-on-free(known crash)", ev["raw"].get("skipped", 0))
         ck.note_case(("tcp", tuple(names), tuple(proxies), tuple(ops2)), any(o[0] == "lock" for o in ops2))
         ck.count("tcp:%s" % kind)
         ck.count("tcp:same-name-clients" if len(set(names[1:])) < len(names[1:]) else "tcp:distinct-names")
-        report_hist(ck, "tcp", names, proxies, ops, ev)
+        report_hist(ck, "tcp", names, proxies, ops, ev, equalise=equalise)
         add_hist_terms(terms, metas, "tcp", names, proxies, ev, with_pattern=False)
     ck.coverage["tcp_histories_s"] = round(time.time() - t_tcp, 1)
     ck.sample({"tcp": True, "insts": tcp[-1][0], "proxies": tcp[-1][1], "ops": tcp[-1][2]}, 4)
@@ -1189,9 +1501,23 @@ def _replay_hist(rep):
         print("implementation:", gen)
         why = next(oracle_tokens(c["names"], gen), None)
         term = coq_tok(c["names"], gen)
+    elif kind == "equalised":
+        insts, proxies, ops, res, achieved = run_equalised(c["n"], tuple(c["sources"]), c["k"], c["full"])
+        print("contexts: %d named %r, each constructed with identical: %s (random: %r); achieved: %r"
+              % (c["n"], insts[1], "+".join(c["sources"]) or "nothing", c["k"], achieved))
+        for o, ob in zip(ops, res["obs"]):
+            print("  %-28r -> %r   sent=%r owner=%r" % (o, ob["out"], ob["sent"], ob["owner"]))
+        print("  tokens generated (instance, token):", res["generated"])
+        whys = list(oracle_equalised(insts, proxies, ops, res))
+        want = [w for w in whys if (rep.get("key") or "").startswith(re.sub(r"-?\d+", "N", w[0]))]
+        why = (want or whys or [None])[0]
+        term = coq_prog(insts, proxies, ops, res)
     elif kind in ("hist", "tcp"):
         ops = [_tup(o) for o in c["ops"]]
-        ev = eval_hist(c["insts"], c["proxies"], ops, kind, **({} if kind == "hist" else {"op_timeout": 3.0}))
+        kw = {} if kind == "hist" else {"op_timeout": 3.0}
+        if c.get("equalise"):
+            kw["equalise"] = (tuple(c["equalise"][0]), c["equalise"][1])
+        ev = eval_hist(c["insts"], c["proxies"], ops, kind, **kw)
         for o, ob in zip(ev["ops"], ev["res"]["obs"]):
             print("  %-40r -> %r   owner=%r  remembered=%r" % (o, ob["out"], ob["owner"], ob["ptoks"]))
         for k, exc, ow, o in ev["raw"].get("crashes", []):
@@ -1199,7 +1525,7 @@ def _replay_hist(rep):
         if ev["res"]["died"]:
             print("  worker died / hung at op %d: %s" % ev["res"]["died"])
         whys = ev["whys"] + ev["crashes"] + ev["collide"]
-        want = [w for w in whys if re.sub(r"-?\d+", "N", w[0]) == rep.get("key")]
+        want = [w for w in whys if (rep.get("key") or "").startswith(re.sub(r"-?\d+", "N", w[0]))]
         why = (want or whys or [None])[0]
         term = coq_hist(c["insts"], c["proxies"], ev["ops"], ev["res"])
     else:
